@@ -190,6 +190,8 @@ def handle : List String → Option String
   | ["wr.send", recipe, _cs, ids, ri, amt, dest, postage] =>
     match parseRecipe recipe, parseIds ids, postage.toNat? with
     | some rc, some idl, some p =>
+      -- text that is not a `Decimal` is rejected by the argument parser, before anything else
+      if amt == "unparsable" then some "err amount" else
       match ri.toNat? with
       | none => some "err not-etched"
       | some i =>
